@@ -115,4 +115,24 @@ PLAN = {
         quick=[dict(test="TestC10", cases=1600, shards=16, timeout=900)],
         thorough=[dict(test="TestC10", cases=48000, shards=16, timeout=3400, shrink=120)],
     ),
+    "C09": dict(
+        level="fault_enumeration",
+        rule=("call trees (depth <= 3 over three interpreter contracts, <= 4 (6) ops per frame: precompile methods with valid / too-large / malformed arguments and every call kind, token transfers, nested contracts; each op caught or propagated, with or without a gas cap; frames ending in RETURN / REVERT / INVALID) "
+              "around all 12 state-changing precompile methods. Fault points: each tree is run with ample gas and then at 8 (30) gas limits drawn from 0..105% of the gas it used plus the absolute limits 0, 20999, 21000, 25000, 53000. "
+              "Oracle: failed tx => state of a reverted no-op tx and no logs; successful tx => state and logs equal those of the tree with every EVM-dropped sub-tree deleted (outcome bits returned by the interpreter). "
+              "non-trivial = a precompile call succeeded inside a frame the EVM later dropped, or a gas limit made the transaction fail after execution had started; evaluations counts trees, gas-points counts executions"),
+        assumptions=["the interpreter contract's outcome bits are taken from the EVM's own success flags"],
+        quick=[dict(test="TestC09", cases=480, shards=16, timeout=900)],
+        thorough=[dict(test="TestC09", cases=16000, shards=16, timeout=3400, shrink=120)],
+    ),
+    "C08": dict(
+        level="exploration",
+        rule=("(A) histories (<= 30 ops) of convert-coin, convert-erc20, convert-denom (every target), ERC-20 transfers, register-coin, register-erc20, toggle and alias updates by 4 holders over FX/WFX, a module-owned pair, an externally-owned pair and pairs registered during the history; "
+              "(B) EVM programs (2..6 steps, one contract, one token) mixing token.transfer / approve / transferFrom / transfer-to-module with crossChain, bridgeCall, cancelSendToExternal, increaseBridgeFee and executeClaim of a deposit to the contract itself, each step caught or propagated, frame returning or reverting. "
+              "Invariants after every step / transaction: module-owned pair escrow == ERC-20 total supply (FX: coins held by the wrapper contract), externally-owned pair: ERC-20 escrowed by the module == coin supply over base + bridge denominations, balances over the closed holder set == total supply, "
+              "pair / by-denom / by-erc20 / alias indexes and bank metadata describe one set of pairs; a conversion moves exactly the amount from sender to receiver and nothing else. non-trivial: (A) conversions over >= 2 pair kinds; (B) the program writes the token before a precompile call converts it in the same successful transaction"),
+        assumptions=["the ERC-20 holder set is closed by construction (the generator only targets known addresses)"],
+        quick=[dict(test="TestC08A", cases=800, shards=8, timeout=900), dict(test="TestC08B", cases=1600, shards=8, timeout=900)],
+        thorough=[dict(test="TestC08A", cases=24000, shards=8, timeout=3400, shrink=120), dict(test="TestC08B", cases=48000, shards=8, timeout=3400, shrink=120)],
+    ),
 }
